@@ -224,36 +224,47 @@ def sorted {α} (lt : α → α → Bool) : List α → List α
 def strLt (a b : String) : Bool := decide (a < b)
 
 /-- `dict(pairs)[key]`: the last binding of a key wins -/
-def dictGet {β} (pairs : List (String × β)) (key : String) : Option β :=
-  (pairs.reverse.find? (fun p => p.1 == key)).map (·.2)
+def dictGet {β} : List (String × β) → String → Option β
+  | [], _ => none
+  | (k, v) :: rest, key =>
+    match dictGet rest key with
+    | some v' => some v'
+    | none => if k = key then some v else none
+
+/-- `lex_params`: the outer inputs after the qubits; with arrays, the elements of the one
+    angle array -/
+def lexParamPorts (c : Circ) (useArrays : Bool) (nOuter : Nat) : Except CompileErr (List Port) :=
+  let offset := if useArrays then c.qregs.length else c.nQubits
+  let lexParams : List Port := ((List.range nOuter).drop offset).map Port.input
+  if useArrays then
+    match lexParams with
+    | .input k :: _ => .ok ((List.range c.nSyms).map fun e => Port.unpack .angle c.nSyms k e)
+    | _ => .error .index
+  else .ok lexParams
+
+/-- `name_to_param[name]` followed by `UnpackTuple` -/
+def bindParam (nameToParam : List (String × Port)) (name : String) : Except CompileErr Src :=
+  match dictGet nameToParam name with
+  | some p => .ok (.untuple p)
+  | none => .error .key
+
+/-- `name_to_param = dict(zip(sorted(param_order), lex_params, strict=True))`, then one wire per
+    name of `param_order`, in that order -/
+def wireParams (paramOrder : List String) (lexParams : List Port) : Except CompileErr (List Src) :=
+  let lexNames := sorted strLt paramOrder
+  if lexNames.length ≠ lexParams.length then .error .zipLength
+  else paramOrder.mapM (bindParam (lexNames.zip lexParams))
 
 /-- the symbolic-parameter arguments of the call -/
 def paramArgs (c : Circ) (useArrays : Bool) (nOuter : Nat) (metadata : Option (List String)) :
     Except CompileErr (List Src) :=
-  let offset := if useArrays then c.qregs.length else c.nQubits
-  let hasParams := c.nSyms ≠ 0
-  if hasParams && metadata.isNone then .error .missingMetadata
-  else if !hasParams then .ok []
-  else
-    let lexParams : List Port := ((List.range nOuter).drop offset).map Port.input
-    let lexParams : Except CompileErr (List Port) :=
-      if useArrays then
-        match lexParams with
-        | .input k :: _ => .ok ((List.range c.nSyms).map fun e => Port.unpack .angle c.nSyms k e)
-        | _ => .error .index
-      else .ok lexParams
-    match lexParams, metadata with
-    | .error e, _ => .error e
-    | _, none => .error .missingMetadata
-    | .ok lexParams, some paramOrder =>
-      let lexNames := sorted strLt paramOrder
-      if lexNames.length ≠ lexParams.length then .error .zipLength
-      else
-        let nameToParam := lexNames.zip lexParams
-        paramOrder.mapM fun name =>
-          match dictGet nameToParam name with
-          | some p => .ok (Src.untuple p)
-          | none => .error .key
+  if c.nSyms = 0 then .ok []
+  else match metadata with
+    | none => .error .missingMetadata
+    | some paramOrder =>
+      match lexParamPorts c useArrays nOuter with
+      | .error e => .error e
+      | .ok lexParams => wireParams paramOrder lexParams
 
 /-- the wires after the output rotation and the `make_opaque` conversion -/
 def outWires (c : Circ) (innerOuts : List PortTy) : List OutLeaf :=
@@ -320,10 +331,10 @@ def UnitId.lt (a b : UnitId) : Bool :=
   else if b.name < a.name then false
   else natListLt a.index b.index
 
+/-- every unit is smaller than every later one -/
 def strictlyIncreasing : List UnitId → Bool
   | [] => true
-  | [_] => true
-  | a :: b :: rest => a.lt b && strictlyIncreasing (b :: rest)
+  | a :: rest => rest.all (fun b => a.lt b) && strictlyIncreasing rest
 
 /-- the units of the listed registers, in listing order -/
 def regUnits : List Reg → List UnitId
